@@ -180,8 +180,8 @@ BENIGN = [
     ("B07-extra-nested-lock", M, lit("    noexcept\n    {\n      reported = true;\n      report_unfulfilled(", "    noexcept\n    {\n      auto lock2 = get_lock();\n      reported = true;\n      report_unfulfilled("), ["C12", "C04"], "core"),
     ("B10-iterator-loop-in-match-conditions", M, lit("      for (auto& c : conditions)\n      {\n        if (!c.check(params)) return false;\n      }\n      return true;", "      for (auto c = conditions.begin(); c != conditions.end(); ++c)\n      {\n        if (!c->check(params)) return false;\n      }\n      return true;"), ["C08", "C01"], "core"),
     ("B11-reported-after-send", M, lit("      reported = true;\n      report_unfulfilled(\n        reason,\n        name,\n        params_string(val),\n        sequences->get_min_calls(),\n        sequences->get_calls(),\n        loc);", "      report_unfulfilled(\n        reason,\n        name,\n        params_string(val),\n        sequences->get_min_calls(),\n        sequences->get_calls(),\n        loc);\n      reported = true;"), ["C04"], "core"),
-    ("B13-report-wording", M, lit("os << \"No match for call of \"", "os << \"No expectation matches the call of \""), ["C15", "C01", "C03"], "core"),
-    ("B14-diagnostic-line-in-dispatch", M, lit("    auto i = find(e.active, param_value);", "    if (false) std::clog << func_name;\n    auto i = find(e.active, param_value);"), ["C01", "C08", "C16", "C17", "C09", "C12"], "core"),
+    ("B13-report-wording", M, lit("\"No match for call of \"", "\"No expectation matches the call of \""), ["C15", "C01", "C03"], "core"),
+    ("B14-diagnostic-line-in-dispatch", M, lit("    auto i = find(e.active, param_value);", "    (void)sig_name; (void)func_name;\n    auto i = find(e.active, param_value);"), ["C01", "C08", "C16", "C17", "C09", "C12"], "core"),
     ("B15-set-reporter-save-assign-return", M, lit("    return detail::exchange(reporter_obj(), std::move(f));", "    auto old = std::move(reporter_obj());\n    reporter_obj() = std::move(f);\n    return old;"), ["C16"], "core"),
     ("B16-cost-type-size_t", S, lambda t: t, ["C05"], "core"),
     ("B17-saturated-ge", M, lit("return call_count == max_calls;", "return call_count >= max_calls;"), ["C03"], "core"),
